@@ -832,6 +832,10 @@ func (cc *codecCtx) evalCodec(c CodecCase) {
 		cc.res.Count("codec:growth-complete")
 	}
 	d, v := cc.run(c)
+	if (d != "" || v != "") && len(cc.res.Findings) >= 4 {
+		cc.res.Count("codec:failing-cases-not-shrunk")
+		return
+	}
 	if d != "" {
 		cc.res.DisagreementsChecked++
 		sc := shrinkCodec(c, func(x CodecCase) bool { dd, _ := cc.run(x); return dd != "" })
@@ -1258,9 +1262,10 @@ func runHist(h HistCase, drv *hx.Driver, root string, n int) (hr histResult) {
 }
 
 func shrinkHist(h HistCase, fails func(HistCase) bool) HistCase {
-	// chunked delta debugging over the op list
+	// chunked delta debugging over the op list, within a time budget
+	deadline := time.Now().Add(75 * time.Second)
 	for chunk := len(h.Ops) / 2; chunk >= 1; chunk /= 2 {
-		for i := 0; i+chunk <= len(h.Ops); {
+		for i := 0; i+chunk <= len(h.Ops) && time.Now().Before(deadline); {
 			d := h
 			d.Ops = append(append([]HOp(nil), h.Ops[:i]...), h.Ops[i+chunk:]...)
 			if fails(d) {
@@ -1394,13 +1399,13 @@ func main() {
 	for i := 0; i < nPure; i++ {
 		cc.evalCodec(genChain(rnd))
 	}
-	for i := 0; i < nLevels; i++ {
+	for i := 0; i < nLevels && res.Distribution["codec:failing-cases-not-shrunk"] < 50; i++ {
 		cc.evalCodec(genLevels(rnd))
 	}
-	for i := 0; i < nHist; i++ {
-		evalHist(genHist(rnd.Fork(), histOps/2+rnd.Intn(histOps)), i)
-		if len(res.Findings) >= 6 {
-			break
+	histFail := 0
+	for i := 0; i < nHist && histFail < 2; i++ {
+		if !evalHist(genHist(rnd.Fork(), histOps/2+rnd.Intn(histOps)), i) {
+			histFail++
 		}
 	}
 	if err := res.Write(o.Out); err != nil {
